@@ -180,6 +180,23 @@ MORE_CASES = {
     end do
   end subroutine sub
 ''',
+    "same-named-bound": '''\
+  subroutine run_it(a)
+    integer, intent(inout) :: a(4,10)
+    call mid(a(:,1), 2)
+  end subroutine run_it
+  subroutine mid(w, lo)
+    integer, intent(in) :: lo
+    integer, intent(inout) :: w(lo:lo+3)
+    call sub(w, 5)
+  end subroutine mid
+  subroutine sub(x, lo)
+    integer, intent(in) :: lo
+    integer, intent(inout) :: x(lo:)
+    x(lo) = x(lo) + 1
+    x(lo + 3) = x(lo + 3) + 7
+  end subroutine sub
+''',
     "negative-stride-section": '''\
   subroutine run_it(a)
     integer, intent(inout) :: a(4,10)
@@ -224,7 +241,9 @@ def case(cid):
         return "norun", "gfortran not found", ""
     module = HEAD + (CASES.get(cid) or MORE_CASES[cid]) + TAIL
     psyir = FortranReader().psyir_from_source(module)
-    caller = [rt for rt in psyir.walk(Routine) if rt.name == "run_it"][0]
+    names = [rt.name for rt in psyir.walk(Routine)]
+    caller = [rt for rt in psyir.walk(Routine)
+              if rt.name == ("mid" if "mid" in names else "run_it")][0]
     for call in caller.walk(Call):
         if isinstance(call, IntrinsicCall):
             continue
